@@ -793,6 +793,58 @@ pub fn run(ctx: &Ctx, rep: &mut Report, which: Which) {
         move |_ctx, h: &History, acc| check_history(h, which, acc, false),
     );
 
+    if which == Which::C14 {
+        // many observers on one resource: every one listed, in registration order
+        run_list(
+            ctx,
+            rep,
+            "many-observers-on-one-resource",
+            "n distinct endpoints (n = 1, 2, 3, 200, 255, 256, 257, 300, 1000) register on one path: all are listed in order; re-registering the k-th replaces it in place; deregistering every other one leaves the rest in order",
+            true,
+            vec![1usize, 2, 3, 200, 255, 256, 257, 300, 1000],
+            |_ctx, n: &usize, acc| {
+                let n = *n;
+                let mut s: Subject<String> = Subject::default();
+                let mk = |i: usize, tok: u8| {
+                    let mut r: CoapRequest<String> = CoapRequest::new();
+                    r.source = Some(format!("peer-{i}"));
+                    r.set_path("many/x");
+                    r.message.set_token(vec![tok, (i % 251) as u8]);
+                    r
+                };
+                for i in 0..n {
+                    s.register(&mk(i, 1));
+                }
+                let list = |s: &Subject<String>| -> Vec<(String, Vec<u8>)> {
+                    s.get_resource("many/x")
+                        .map(|r| r.observers.iter().map(|o| (o.endpoint.clone(), o.token.clone())).collect())
+                        .unwrap_or_default()
+                };
+                let mut want: Vec<(String, Vec<u8>)> = (0..n).map(|i| (format!("peer-{i}"), vec![1, (i % 251) as u8])).collect();
+                ensure!(
+                    list(&s) == want,
+                    "c14-many-observers",
+                    "{n} distinct endpoints registered on one resource, {} are listed (or the order differs)",
+                    list(&s).len()
+                );
+                let k = n / 2;
+                s.register(&mk(k, 2));
+                want[k].1 = vec![2, (k % 251) as u8];
+                ensure!(list(&s) == want, "c14-many-observers", "re-registering endpoint {k} of {n} did not replace it in place");
+                for i in (0..n).step_by(2) {
+                    let tok = if i == k { 2 } else { 1 };
+                    s.deregister(&mk(i, tok));
+                }
+                let want: Vec<(String, Vec<u8>)> = want.into_iter().enumerate().filter(|(i, _)| i % 2 == 1).map(|(_, x)| x).collect();
+                ensure!(list(&s) == want, "c14-many-observers", "after deregistering every other of {n} observers {} remain, expected {}", list(&s).len(), want.len());
+                acc.nontrivial_enum();
+                if n >= 255 {
+                    acc.class("observers>=255");
+                }
+                Ok(())
+            },
+        );
+    }
     if which == Which::C15 {
         // exact eviction point for every limit, straight CON rounds
         let mut cases = Vec::new();
